@@ -73,14 +73,18 @@ class TokenizerContext:
                 self.candidateBuffer = bytesFromUint(self._tokens[self.sourceSequence])
             self.bucket = ""
         elif self.bucket in self._tokens:
-            # found an early tokenizable sequence
-            if self.sourceSequence in self._requireColonIfNotBlank:
+            # found an early tokenizable sequence : keep what was pending, restart
+            # the sequence at this token, then process the input again
+            self.doneBuffer += self.candidateBuffer
+            if self.bucket in self._requireColonIfNotBlank:
                 self.candidateBuffer = toUint8(0x3A) + bytesFromUint(
                     self._tokens[self.bucket]
                 )
             else:
                 self.candidateBuffer = bytesFromUint(self._tokens[self.bucket])
+            self.sourceSequence = self.bucket
             self.bucket = ""
+            self.appendAsToken(inputSeq)
         elif inputSeq in self._tokens:
             # found a token on the spot
             self.commit()
